@@ -137,6 +137,8 @@ def run_case(case, mir, schema, native=None, quick=True):
             ctx = Ctx(pre, post, call_args, k, ret, S, ci)
             if k == "panic":
                 ok_reach, m = h.reachable(o)
+                if ok_reach is None and any(cl.when == "nopanic" for cl in case.claims):
+                    raise Inconclusive(f"solver could not decide whether the panic `{str(o.val)[:80]}` is reachable")
                 if ok_reach:
                     # a reachable panic is reported through 'nopanic' claims
                     for cl in case.claims:
@@ -156,6 +158,18 @@ def run_case(case, mir, schema, native=None, quick=True):
                 rec = h.prove(o, expr, cl.name)
                 rec["claim"] = cl
                 rec["kind"] = k
+                if rec["status"] == "violated":
+                    # look for a witness that violates the claim by a clear margin (survives f64 rounding on replay)
+                    try:
+                        tmpl.MARGIN = 1e-3
+                        tol = cl.fn(ctx)
+                    finally:
+                        tmpl.MARGIN = None
+                    m2 = h.robust_model(o, to_z3(tol)) if not isinstance(tol, bool) else None
+                    if m2 is not None:
+                        rec["model"] = h.model_values(m2)
+                        rec["_model"] = m2
+                        rec["robust_witness"] = True
             # side conditions recorded by the engine on Ok paths (NaN/inf production, overflow)
             if k == "ok":
                 for r in h.check_events(o, prefix="side:"):
@@ -171,6 +185,8 @@ def run_case(case, mir, schema, native=None, quick=True):
             if outcome_kind(o) == "ok":
                 okr, _ = h.reachable(o)
                 nreach += 1 if okr else 0
+                if okr is None:
+                    res.setdefault("notes", []).append("reachability of an Ok outcome: solver unknown")
         res["reachable_ok_outcomes"] = nreach
         if case.expect_ok and nreach == 0 and res["status"] == "pass":
             res["status"] = "inconclusive"
